@@ -4,6 +4,7 @@ import Proofs.Walk
 import Proofs.Team
 import Proofs.TeamAll
 import Proofs.EffortGlobal
+import Proofs.TeamEffort
 import Proofs.WFCheck
 /-!
 C03 — a scheduled task receives exactly its effort.
@@ -226,5 +227,62 @@ theorem team_all_or_nobody_same_seconds (e : Env) (wf : WF e) (σ : St) (t : Nat
   bookResources_team e wf σ t w hinv ha hteam hnd hclean
 
 example : usageOf ({ used := 1200, usage := [(0, 1200)] } : Slot).usage 1 = none := by decide +kernel
+
+/-! ### teams, end to end -/
+
+/-- a task whose allocation is the list `sel` of several pairwise different resources with one common positive efficiency
+    (no alternatives) is a team task in every state -/
+theorem teamElig_of_alloc (e : Env) (t : Nat) (sel : List Nat) (η : Rat) (hlf : (e.taskD t).leaf = true)
+    (ha : (e.taskD t).hasAlloc = true) (hm : (e.taskD t).milestone = false) (hpos : 0 < (e.taskD t).effort)
+    (hal : (e.taskD t).alloc = sel) (halt : (e.taskD t).alt = []) (hmany : 1 < sel.length) (hnd : sel.Nodup)
+    (heff : ∀ r ∈ sel, (e.resD r).eff = η) (hη : 0 < η) : TeamElig e t sel η :=
+  ⟨hlf, ha, hm, hpos, fun σ c => by
+      rw [hal, halt]
+      unfold selectBest
+      have : sel.isEmpty = false := by cases sel with
+        | nil => simp at hmany
+        | cons _ _ => rfl
+      simp [this], hmany, hnd, heff, hη⟩
+
+/-- **C03 for teams, whole projects**: after scheduling ANY well-formed project, every team task (its allocation always
+    selects the same several members `sel`, pairwise different, of one common efficiency `η`) that is reported as scheduled
+    holds, in the final ledger, for EVERY member entries in one common list of distinct slots `vis` and nowhere else; in every
+    slot all members hold the same seconds (the same instants); and each member's seconds weighted by `η` add up to exactly
+    the requested effort — never less, and no further slot.  (Whatever else is booked on the members, all calendars, limits
+    shared or not, ASAP and ALAP.) -/
+theorem team_effort_exact (e : Env) (wf : WF e) (t : Nat) (sel : List Nat) (η : Rat) (hel : TeamElig e t sel η)
+    (hs : ((runScenario e).tst t).scheduled = true) :
+    ∃ vis : List Int, vis.Nodup ∧
+      (∀ r ∈ sel, ∀ i, i ∉ vis → usageOf ((runScenario e).led.get r i).usage t = none) ∧
+      (∀ r ∈ sel, sumOver (runScenario e).led r t vis / 3600 * η = (e.taskD t).effort) ∧
+      (∀ r ∈ sel, ∀ r' ∈ sel, ∀ i,
+        usageOf ((runScenario e).led.get r i).usage t = usageOf ((runScenario e).led.get r' i).usage t) :=
+  runScenario_team_effort_exact e wf t sel η hel
+    (runScenario_scheduled_done e t ⟨hel.leaf, hel.effort, hel.nomile⟩ hs)
+
+/-- the same for the environment elaborated from a project description, under the decidable check -/
+theorem team_effort_exact_elab (p : RawProj) (h : wfCheck (elaborate p).env = true) (t : Nat) (sel : List Nat) (η : Rat)
+    (hel : TeamElig (elaborate p).env t sel η) (hs : ((runScenario (elaborate p).env).tst t).scheduled = true) :
+    ∃ vis : List Int, vis.Nodup ∧
+      (∀ r ∈ sel, ∀ i, i ∉ vis → usageOf ((runScenario (elaborate p).env).led.get r i).usage t = none) ∧
+      (∀ r ∈ sel, sumOver (runScenario (elaborate p).env).led r t vis / 3600 * η = ((elaborate p).env.taskD t).effort) ∧
+      (∀ r ∈ sel, ∀ r' ∈ sel, ∀ i,
+        usageOf ((runScenario (elaborate p).env).led.get r i).usage t
+          = usageOf ((runScenario (elaborate p).env).led.get r' i).usage t) :=
+  team_effort_exact _ (wfCheck_sound _ h) t sel η hel hs
+
+/-- non-vacuity: the witness of finding F32 (two members, one partly used by another task) is a well-formed project whose
+    second task is a team task -/
+def f32 : RawProj :=
+  { G := 3600, start := 1736121600, stop := 1737331200,
+    res := [{ }, { }],
+    tasks := [{ effort := some (1/3), alloc := some ([0], []), prio := some 900 },
+              { effort := some 3, alloc := some ([0, 1], []) }] }
+
+example : wfCheck (elaborate f32).env = true := by decide +kernel
+example : TeamElig (elaborate f32).env 1 [0, 1] 1 :=
+  teamElig_of_alloc _ 1 [0, 1] 1 (by decide +kernel) (by decide +kernel) (by decide +kernel) (by decide +kernel)
+    (by decide +kernel) (by decide +kernel) (by decide +kernel) (by decide +kernel)
+    (by intro r hr; simp at hr; rcases hr with h | h <;> subst h <;> decide +kernel) (by decide +kernel)
 
 end SP.C03
